@@ -88,9 +88,17 @@ CHECKS = [
         "structural bound (stated in evidence): one or two battery groups, up to two inverters per group, up to three batteries per "
         "group, one fixed topology for PowerBoundsCalculator; all numeric data unbounded; floats as reals",
         "contract-based deductive verification (z3, LRA), structural bound on topology", "DESIGN.md 3 (C17)"),
+    chk("C14", "proof",
+        "Deductive proof of the request scheduler as atomic steps: a distribution is started only when none is in flight for the "
+        "group (precondition of _process_request, an obligation at both call sites); arrivals for a busy group are parked and the "
+        "parked request is always the latest (loop invariant over the request stream with a ghost map); at completion - normal or "
+        "exceptional - the parked request starts at once; other groups are never touched.",
+        "asyncio.create_task / done-callback behaviour assumed (callback exactly once after completion); two disjoint groups; "
+        "scripted component manager; liveness reduced to safety + 'every distribution task finishes'; requests compared by content",
+        "contract-based deductive verification of atomic steps with class invariant and ghost state (z3)", "DESIGN.md 3 (C14)"),
 ]
 
 _PENDING = "check under construction in this session (contracts not yet written); will be claimed once its obligations discharge"
 NOT_APPLICABLE = [
     {"property_id": "C12", "reason": "formula generators are graph algorithms over networkx.DiGraph (recursive dfs, successor-set classification); no contract within reach of the VC generator expresses 'the generated formula balances for every valid graph' (DESIGN.md 4)"},
-] + [{"property_id": f"C{n:02d}", "reason": _PENDING} for n in (1, 2, 5, 6, 9, 10, 14, 15, 19, 20)]
+] + [{"property_id": f"C{n:02d}", "reason": _PENDING} for n in (1, 2, 5, 6, 9, 10, 15, 19, 20)]
